@@ -53,9 +53,10 @@ VARIANTS = [(False, None), (True, None), (False, 0), (True, 0), (False, 8), (Tru
 def _run_dw(c, history, reuse, thr, interp_each_step=True):
     from sparseSpACE.GridOperation import DensityEstimation
     from sparseSpACE.Grid import GlobalTrapezoidalGrid
-    d = 2
+    X, _ = DATA[c["data"]] if c["data"] in DATA else DATA3[c["data"]]
+    d = X.shape[1]
+    LAT = LATTICE if d == 2 else LATTICE3
     a, b = np.zeros(d), np.ones(d)
-    X, _ = DATA[c["data"]]
     cls = _classes(c["data"], c["labels"])
     _set_threshold(thr)
     try:
@@ -64,15 +65,15 @@ def _run_dw(c, history, reuse, thr, interp_each_step=True):
         op = DensityEstimation(X.copy(), d, grid=grid, masslumping=False, lambd=c["lambda"], classes=None if cls is None else cls.copy(),
                                reuse_old_values=reuse, numeric_calculation=False, print_output=False, pre_scaled_data=True,
                                print_level=1000, log_level=1000)
-        cfg = {"d": d, "lmin": 1, "lmax": c["lmax"], "version": 6, "rebalancing": False, "boundary": bnd}
+        cfg = {"d": d, "lmin": c.get("lmin", 1), "lmax": c["lmax"], "version": 6, "rebalancing": False, "boundary": bnd}
         # the density is also interpolated after EVERY evaluation (as a user monitoring the refinement would): caches filled by an
         # earlier interpolation must not leak into a later one
-        obs = (lambda run: run.sa(LATTICE)) if interp_each_step else None
+        obs = (lambda run: run.sa(LAT)) if interp_each_step else None
         r = dw.build(cfg, history, None, None, grid=grid, operation=op, observer=obs)
         sa = r.sa
         sur = {tuple(int(x) for x in comp.levelvector): np.array(op.surpluses[tuple(comp.levelvector)], dtype=float).copy() for comp in sa.scheme}
         scheme = tuple(sorted((tuple(int(x) for x in comp.levelvector), float(comp.coefficient)) for comp in sa.scheme))
-        dens = np.asarray(sa(LATTICE), dtype=float).copy()
+        dens = np.asarray(sa(LAT), dtype=float).copy()
     finally:
         _set_threshold(None)
     return sa, sur, scheme, dens
@@ -250,6 +251,15 @@ def main(ctx):
         cfg = {"kind": "dw", "data": data, "labels": labels, "lambda": lam, "lmax": lmax, "s": s, "boundary": True}
         tag = "dw_boundary_%s_%s_lam%s_lmax%d_D%d_s%d" % (data, labels, lam, lmax, D, s)
         ctx.bounds[tag] = core.bfs(ctx, cfg, D, tag=tag)
+    # three-dimensional dimension-wise grids: component grids with two or more inner points in EVERY dimension (pairs of points that
+    # differ in all three coordinates; strides / bands that are only right in two dimensions).  lmax - lmin = 3 puts (2,2,2) into the
+    # initial scheme; the graded histories reach non-uniform grids of that kind from (1,3)
+    for data, labels, lam, lmin, lmax, D, tw in [("mixed3", "frac", 0.01, 1, 4, 1, None), ("mixed3", "none", 0.0, 1, 3, 2 if q else 3, [[0.31, 0.8, 0.55]])]:
+        cfg = {"kind": "dw", "data": data, "labels": labels, "lambda": lam, "lmin": lmin, "lmax": lmax, "s": 1}
+        if tw:
+            cfg["towards"] = tw
+        tag = "dw3d_%s_%s_lam%s_l%d%d_D%d%s" % (data, labels, lam, lmin, lmax, D, "_towards" if tw else "")
+        ctx.bounds[tag] = core.bfs(ctx, cfg, D, tag=tag)
     # uniform combinations
     cases = []
     for data in DATA:
@@ -302,6 +312,6 @@ def main(ctx):
         rule="dimension-wise: BFS over refinement-decision histories (scripted estimator, real loop); uniform: lattice data x labels x "
              "lambda x level range x mass lumping; EVERY state/case is executed on 6 real instances (reuse on/off x threshold 200/0/8) and "
              "compared with the reuse-off / natural-threshold instance (evaluations = instances run)",
-        assumptions=["d=2, data in the unit cube (pre_scaled_data), GlobalTrapezoidalGrid without (and, for two configurations, with) boundary points, rebalancing off",
+        assumptions=["d=2 (two dimension-wise configurations and the mixed3 standard combinations: d=3), data in the unit cube (pre_scaled_data), GlobalTrapezoidalGrid without (and, for two configurations, with) boundary points, rebalancing off",
                      "size threshold moved through the guarded hook sparseSpACE.GridOperation._VERIF_DE_THRESHOLD (SPARSESPACE_VERIF=1)",
                      "agreement tolerance 1e-9 relative"])
